@@ -1,10 +1,17 @@
 (* C11 -- a tick of a well-formed program steps every stream exactly once, in registration order: the recursion
    into parents (several consumers stepping the same stream) is unobservable. *)
 From Coq Require Import ZArith NArith Bool String List Lia.
-Require Import PV.Base.Val PV.Gen.Window PV.Model.Window PV.Proofs.Window PV.Proofs.WindowMixed.
+Require Import PV.Base.Val PV.Gen.Window PV.Model.Window PV.Proofs.Window.
 Import ListNotations.
 Open Scope Z_scope.
 Open Scope list_scope.
+
+(* streams only refer to streams registered before them *)
+Definition parent_before (j : nat) (nd : node) : Prop :=
+  match nd with
+  | Src _ => True
+  | Trans _ p | Window _ _ p | Stateful _ p => (p < j)%nat
+  end.
 
 (* what stream i does in a tick when its parent has already been stepped: no recursion *)
 Definition direct (g : list node) (i : nat) (t : Z) (st : gstate) : gstate * option string :=
